@@ -189,3 +189,15 @@ Definition equiv_check_ext (c c' : circuit) (ext : gset string) : bool := equiv_
 Definition equiv_check_ren (c c' : circuit) (on : list string) (ρ : string → string) : bool := equiv_check_gen c c' ∅ on ρ.
 Definition max_depth (g : circuit) : nat := map_fold (λ _ d acc, max d acc) 0 (rank_table g).
 Definition no_boundary (g : circuit) (s : nat) : bool := (round_half_even (max_depth g) (S s) =? 0)%nat.
+
+(* cyclic circuits (no unique evaluation): brute force over all valuations of the nodes, for small circuits only.
+   dir 1: every consistent valuation of c' is consistent for c as it stands; dir 2: every consistent valuation of c
+   extends over the new nodes to a consistent valuation of c'. *)
+Definition val_set (ones : list string) : val := let s : gset string := list_to_set ones in λ n, bool_decide (n ∈ s).
+Definition equiv_brute (c c' : circuit) : bool :=
+  closedb c && closedb c' && bool_decide (dom c ⊆ dom c') &&
+  forallb (λ o, let v := val_set o in negb (consistentb c' v) || consistentb c v) (subsets (elements (dom c'))) &&
+  (let new := subsets (elements (dom c' ∖ dom c)) in
+   forallb (λ o, negb (consistentb c (val_set o)) || existsb (λ w, consistentb c' (val_set (o ++ w))) new)
+           (subsets (elements (dom c)))).
+Definition equiv_oracle (c c' : circuit) : bool := if acyclicb c then equiv_check c c' else equiv_brute c c'.
